@@ -2,7 +2,7 @@
    MemoryLeakDetector.cpp on every run (gen/Gen_Leaf.v), for the default build (guard bytes on):
    calculateVoidPointerAlignedSize, sizeOfMemoryWithCorruptionInfo, sizeLeavesRoomForAccountingInformation. *)
 From Coq Require Import ZArith NArith Bool List Lia.
-From CppUVerif Require Import lib.CSem gen.Gen_Common gen.Gen_C05 gen.Gen_Leaf C05_Model.
+From CppUVerif Require Import lib.CSem gen.Gen_Common gen.Gen_C05 gen.Gen_LeafC05 C05_Model.
 Local Open Scope Z_scope.
 
 Lemma cw64 x : cw 64 false x = x mod 18446744073709551616.
